@@ -239,7 +239,7 @@ impl Driver for C17 {
         }
     }
     fn rule(&self) -> String {
-        "random LinearModels built through the public API, and - every fifth case - linear models compiled by the Linearizer from G-model sources whose variables are declared out of alphabetical order (<=6 variables, <=6 rows; coefficients from small integers, halves, 1e-9..1e9; Boolean/IntegerRange/Real/NonNegativeReal with finite, half-infinite and infinite bounds; named/unnamed rows; offsets; min/max/satisfy); each is exported with to_lp_format() and read back by an independent LP-format reader; every number is compared exactly. distinct = structural hash of the model; non-trivial = at least one row".into()
+        "random LinearModels built through the public API, and - every fifth case - linear models compiled by the Linearizer from G-model sources whose variables are declared out of alphabetical order (<=6 variables, <=6 rows; coefficients from small integers, halves, 1e-9..1e9; Boolean/IntegerRange/Real/NonNegativeReal with finite, half-infinite and infinite bounds; named/unnamed rows; offsets; min/max/satisfy); each is exported with to_lp_format() and read back by an independent LP-format reader; every number is compared exactly. distinct = structural hash of the model; non-trivial = at least one row One model in eight has an objective constant of a few millionths, one in ten a coefficient / right-hand side / cost of that size.".into()
     }
     fn thresholds(&self, _tier: Tier) -> Thresholds {
         Thresholds {
